@@ -97,8 +97,16 @@ pub fn run_one(prop: Prop, seed: u64, run: u64, known: &[String]) -> RunResult {
     let mut wl = Workload::new();
     let mut steps = Vec::with_capacity(cfg.n_steps);
     let mut stop = None;
-    for _ in 0..cfg.n_steps {
+    let mut budget = cfg.n_steps;
+    while budget > 0 || !wl.queue.is_empty() {
+        budget = budget.saturating_sub(1);
+        if steps.len() >= 400 {
+            break;
+        }
         let st = wl.next_step(&mut r, &sim);
+        if std::env::var("OPSIM_TRACE_STEPS").is_ok() {
+            eprintln!("step {} {} q={} json={}", steps.len(), st.kind(), wl.queue.len(), serde_json::to_string(&st).map(|s| s.len()).unwrap_or(0));
+        }
         steps.push(st);
         if let Err(e) = sim.exec(steps.last().unwrap()) {
             stop = Some(e);
